@@ -177,6 +177,22 @@ pub fn run(runner: &mut Runner, data_dir: &str, shapes: Option<&str>, seed: u64,
                 emit(runner, SIM, "sweep-chunk", format!("c{pos}.{bit}"), mk(&wbank, &c, &tbank), true);
             }
         }
+        // every truncation of the valid wire, pad-chunk and TRG banks (headers intact, tails missing)
+        for len in 0..wbank.data.len().min(120) {
+            let mut w = wbank.clone();
+            w.data.truncate(len);
+            emit(runner, SIM, "trunc-adc", format!("ta{len}"), mk(&w, &pbanks[0], &tbank), true);
+        }
+        for len in 0..pbanks[0].data.len().min(120) {
+            let mut c = pbanks[0].clone();
+            c.data.truncate(len);
+            emit(runner, SIM, "trunc-chunk", format!("tc{len}"), mk(&wbank, &c, &tbank), true);
+        }
+        for len in 0..tbank.data.len() {
+            let mut t = tbank.clone();
+            t.data.truncate(len);
+            emit(runner, SIM, "trunc-trg", format!("tt{len}"), mk(&wbank, &pbanks[0], &t), true);
+        }
         for pos in 20..20 + 56 {
             for bit in 0..8 {
                 let mut c = pbanks[0].clone();
